@@ -444,6 +444,16 @@ def gamma_peak_density(repo, rep):
 
 
 def run(repo, rep, tier):
+    rep.rule("R-C02-6", "(shared with C18) no peak statistic is memoised on the xarray-cached accessor: after an in-place edit the reported "
+                        "peak would be the peak of the spectrum as it was")
+    from ..effects import Engine as _Eng
+    from .c18 import accessor_state as _acc
+    _e = _Eng(repo)
+    _e.solve()
+    _sa = repo.cls("wavespectra.specarray.SpecArray")
+    for f_, ln_, fn_, cons_, why_ in _acc(repo, _e, _sa):
+        rep.fail("R-C02-6", f_, ln_, fn_, cons_, why_ + ": tp / fp / gamma keep reporting the old peak")
+    rep.ok("R-C02-6", f"{_sa.module.relpath} SpecArray", f"{len(_sa.methods)} methods", "no memo, no derived state on the accessor")
     rep.rule("R-C02-1", "tp/tps/dpm/dpspr kernels receive the index produced by SpecArray._peak applied to the "
                         "direction-integrated spectrum at full precision; fp, alpha, gamma reach the same locator")
     rep.rule("R-C02-2", "_peak marks strict interior maxima: both neighbour differences compared strictly with 0, paddings "
